@@ -398,3 +398,8 @@ LEVEL_TEXT = ("Lean theorems about the model of BuildCte / derived tables / Subq
 LEVEL_NOTE = ("CTE thunks are lazy in Go and sequentially evaluated in the model: unobservable for pure, non-failing bodies (the "
               "generated domain); self/forward references are out of model for values (C10 covers their termination).")
 TECHNIQUE = "Lean 4 proof (unfolding of the structural evaluator; substitution lemmas) + model correspondence + metamorphic staged runs"
+
+# the text of the functions this property's model mirrors is a regenerated fact (Obligations/PinC07: closed by rfl)
+FACTS = True
+LEAN_TARGETS = list(LEAN_TARGETS) + ["Genql.Obligations.PinC07"]
+THEOREMS = list(THEOREMS) + ["Genql.Obligations.PinC07.pinned_text"]
